@@ -42,11 +42,24 @@ THEOREMS = [
     "PorepyVerif.C35.expand_indices_add_increment_eq",
     "PorepyVerif.C35.block_diag_index_square",
     "PorepyVerif.C35.block_diag_index_eq_coordinates",
+    "PorepyVerif.C35.csc_eq_transposed_reading",
+    "PorepyVerif.C35.transpose_transpose",
+    "PorepyVerif.C35.zero_columns_eq_dense",
+    "PorepyVerif.C35.slice_columns_eq_dense_index",
+    "PorepyVerif.C35.merge_columns_eq_replacement",
+    "PorepyVerif.C35.stack_mat_csc_eq_hstack",
+    "PorepyVerif.C35.stack_diag_csc_eq_block_diag",
+    "PorepyVerif.C35.csc_from_sparse_blocks_eq_block_diag",
+    "PorepyVerif.C35.csc_from_dense_blocks_eq_block_diag",
+    "PorepyVerif.C35.slice_mask_eq_dense_mask",
+    "PorepyVerif.C35.slice_indices_mask_eq",
+    "PorepyVerif.C35.sparse_kronecker_product_dense",
+    "PorepyVerif.C35.optimized_storage_spec",
 ]
 LEAN_MODULES = ["PorepyVerif.C35.Props"]
 AUDIT = "PorepyVerif/C35/Audit.lean"
 DRIVER = "PorepyVerif/C35/Driver.lean"
-N = {"quick": 2500, "thorough": 60000}
+N = {"quick": 2000, "thorough": 60000}
 RULE = ("one call of one utility per case (function drawn from 23 kinds, see input_distribution); matrices: csr or csc, 0-6 lines x 0-5 "
         "minor entries, 30% empty lines, styles canonical / unsorted indices / duplicate indices / full / nearly empty, 15% explicit "
         "zeros, values small dyadic rationals (binary64 exact); line sets: sorted, unsorted, repeated (where the code allows it), empty, "
@@ -57,8 +70,8 @@ TRUSTED = [
     "scipy constructors csr_matrix((data, indices, indptr)) (no reordering), scipy fancy line indexing B[sort_ind] inside merge_matrices (modelled by sliceLines), "
     "scipy asformat / tocsr / tocsc / kron (format conversions are performed by scipy on the harness side before the model is called; "
     "sparse_kronecker_product is pure scipy and is compared with the model's Kronecker reference on dense output only)",
-    "csc = csr reading of the transpose: the theorems are stated for the row-wise reading; the harness maps csc inputs/outputs through the transposition, "
-    "the format-dependent shape checks/updates of the code are exercised by correspondence and oracle only",
+    "csc functions are DEFINED in the model as the csr function on the reading with the same arrays (Csc.ofRead . f . Csc.read) - that the code really runs the same array "
+    "manipulations for both formats, and assembles the shape as the model does, is checked by correspondence (raw arrays, shapes and Csc.toDense vs toarray()) and oracle",
     "slice assignment i[a:b] = ... over consecutive slices in block_diag_index(m) is modelled as concatenation",
 ]
 EXPLANATION = (
@@ -72,10 +85,16 @@ EXPLANATION = (
     "cs?_matrix_from_dense_blocks (incl. block_size 1 and num_blocks 0, and the ValueError), block_diag_matrix, block_diag_index(m) and block_diag_index(m, n) "
     "(= coordinates of the block-diagonal entries, zero sizes allowed), expand_indices_nd (F and C order), expand_indices_add_increment, and the Kronecker reference "
     "kron(A, I_nd) in compressed form (= dense Kronecker product; nd = 1 is the identity). "
-    "CORRESPONDENCE ONLY (model + differential test + oracle, no theorem): the csc side of every function (the model receives the transposed reading; the format-specific "
-    "shape checks / shape updates and the ValueError guards of zero_*, merge_matrices, stack_* live in the driver), boolean-mask front ends (np.where + the proved array "
-    "version; only whereTrue's range is proved), sparse_kronecker_product itself (pure scipy, compared with the proved reference on dense output), "
-    "optimized_compressed_storage (format rule), the IndexError corner of rldecode/block_diag_index for count vectors longer than the values. "
+    "CSC SIDE (proved): Csc.toDense is scipy's column-wise semantics written down directly; csc_eq_transposed_reading proves it is the transpose of the row-wise reading of the "
+    "same arrays (and transpose_transpose the involution), and every format-taking function has its csc theorem as the transposed statement of the csr theorem: "
+    "zero_columns, slice A[:, ind], merge_matrices A[:, lines] = B, csc_matrix_from_sparse_blocks / _dense_blocks; for stacking the transposes are eliminated "
+    "(stack_mat csc = hstack row by row, stack_diag csc = the same dense block diagonal). The driver runs the Csc functions for csc inputs and returns Csc.toDense "
+    "(dense_std), which is compared with scipy's toarray(). Also proved: boolean-mask slicing (= A[mask, :]) and the mask form of slice_indices incl. its IndexError, "
+    "sparse_kronecker_product for every nd (nd = 1 unchanged, nd = 0 empty), optimized_compressed_storage (format rule and unchanged dense matrix). "
+    "CORRESPONDENCE ONLY (model + differential test + oracle, no theorem): the format-string / shape ValueError guards of zero_*, merge_matrices, stack_* (in the driver); "
+    "scipy's own conversions and kron (asformat, tocsr/tocsc, sps.kron are black boxes: sparse_kronecker_product and optimized_compressed_storage are compared on dense "
+    "output with proved reference models kronI / denseToCsr; a csc input of sparse_kronecker_product goes through the transposed reading in the harness); "
+    "the IndexError corner of rldecode/block_diag_index for count vectors longer than the values. "
     "ORACLE ONLY (no model): copy, sparse_array_to_row_col_data, sparse_dia_from_sparse_blocks. "
     "Correspondence compares the raw arrays (indptr, indices, data) AND the dense reading exactly, index outputs exactly, exceptions by class. "
     "Known finding (open): stack_diag returns A unchanged when B has no lines but a non-zero minor dimension (shape differs from the dense block diagonal); "
@@ -355,9 +374,10 @@ def canon(M):
     out = {"fmt": M.format, "nrows": int(nmaj), "ncols": int(nmin), "indptr": [int(x) for x in M.indptr],
            "indices": [int(x) for x in M.indices], "data": [frac(x) for x in M.data], "wf_out": _wf(M)}
     if not out["wf_out"]:
-        out["dense"] = "malformed result"
+        out["dense"] = out["dense_std"] = "malformed result"
         return out
     D = M.toarray()
+    out["dense_std"] = [[frac(x) for x in row] for row in D]
     if M.format == "csc":
         D = D.T
     out["dense"] = [[frac(x) for x in row] for row in D]
@@ -488,7 +508,7 @@ def impl_run(case):
             D, sh = D.T, sh[::-1]
         return {"dense": [[frac(x) for x in row] for row in D], "nrows": int(sh[0]), "ncols": int(sh[1]), "wf_out": _wf(r)}
     if fn == "opt":
-        return {"fmt": r.format}
+        return {"fmt": r.format, "dense_std": [[frac(x) for x in row] for row in r.toarray()] if _wf(r) else "malformed result"}
     raise AssertionError(fn)
 
 
@@ -502,7 +522,7 @@ def model_ops(case):
     if fn == "slice":
         return [{"op": "slice", "A": reading(case["A"]), "fmt": case["A"]["fmt"], "ind": case["ind"]}]
     if fn == "slice_mask":
-        return [{"op": "slice_mask", "A": reading(case["A"]), "mask": case["mask"]}]
+        return [{"op": "slice_mask", "A": reading(case["A"]), "fmt": case["A"]["fmt"], "mask": case["mask"]}]
     if fn == "slice_int":
         return [{"op": "slice", "A": reading(case["A"]), "fmt": case["A"]["fmt"], "ind": [case["i"]]}]
     if fn == "slice_indices":
@@ -524,9 +544,9 @@ def model_ops(case):
             if M.format != case["fmt"]:
                 M = M.asformat(case["fmt"])
             bl.append(reading(from_scipy(M)))
-        return [{"op": fn, "blocks": bl}]
+        return [{"op": fn, "blocks": bl, "fmt": case["fmt"]}]
     if fn == "from_dense_blocks":
-        return [{"op": fn, "data": case["data"], "block_size": case["block_size"], "num_blocks": case["num_blocks"]}]
+        return [{"op": fn, "data": case["data"], "block_size": case["block_size"], "num_blocks": case["num_blocks"], "fmt": case["fmt"]}]
     if fn == "rlencode":
         return [{"op": fn, "cols": case["cols"]}]
     if fn == "rldecode":
@@ -546,7 +566,8 @@ def model_ops(case):
     if fn == "incr":
         return [{"op": fn, "x": case["x"], "n": case["n"], "increment": case["increment"]}]
     if fn == "opt":
-        return [{"op": fn, "nrows": case["A"]["shape"][0], "ncols": case["A"]["shape"][1]}]
+        # scipy converts the source (csr / csc / coo) to csr for the model; the model decides the format and keeps the dense matrix
+        return [{"op": fn, "A": reading(from_scipy(_src(case).tocsr()))}]
     raise AssertionError(fn)
 
 
